@@ -388,9 +388,12 @@ func ruleXRefStreamCursor(c *eng.Ctx) {
 			c.Viol(R, key, ci.Pos(), "the entry read is not inside the loop over /Index subsections")
 			continue
 		}
-		var pos ssa.Value
-		if sl, ok := ci.Common().Args[1].(*ssa.Slice); ok {
-			pos = sl.Low
+		// the cursor: the low bound of data[pos:], or the remainder slice itself (rest = rest[n:])
+		var pos ssa.Value = ci.Common().Args[1]
+		if sl, ok := pos.(*ssa.Slice); ok && sl.Low != nil {
+			if _, isPhi := sl.X.(*ssa.Phi); !isPhi {
+				pos = sl.Low
+			}
 		}
 		ok := false
 		// arithmetic dependence only (sums, products, conversions, phis): a value that merely selects
@@ -409,6 +412,9 @@ func ruleXRefStreamCursor(c *eng.Ctx) {
 					walk(y.Y)
 				case *ssa.Convert:
 					walk(y.X)
+				case *ssa.Slice:
+					walk(y.X)
+					walk(y.Low)
 				case *ssa.Phi:
 					for _, e := range y.Edges {
 						walk(e)
